@@ -176,4 +176,15 @@ theorem deadlocked_spec {v s} (h : deadlocked v s = true) : (∀ a, step v s a =
     rw [h.1] at this
     cases this
 
+theorem reachable_of_runTrace {v : Variant} (as : List Action) : ∀ {s0 s : State}, Reachable v s0 →
+    runTrace v s0 as = some s → Reachable v s := by
+  induction as with
+  | nil => intro s0 s hr h; simp only [runTrace, Option.some.injEq] at h; subst h; exact hr
+  | cons a as ih =>
+    intro s0 s hr h
+    simp only [runTrace] at h
+    cases hs : step v s0 a with
+    | none => rw [hs] at h; cases h
+    | some s1 => rw [hs] at h; exact ih (Reachable.step hr hs) h
+
 end Tongo.PoolSM
